@@ -14,6 +14,7 @@ use qbice::{
         in_memory::{InMemoryStorageEngine, InMemoryStorageEngineFactory},
     },
 };
+use futures::FutureExt;
 use serde::{Deserialize, Serialize};
 
 use crate::{
@@ -232,8 +233,11 @@ impl<C: Config> Driver<C> {
                     ctx.rec.push(Event::Tracked { t: *t });
                 }
                 let te = self.tracked[*t].as_ref().unwrap();
-                let v = query_node(&ctx, te, n - 1).await;
-                ctx.rec.push(Event::Query { t: *t, n: *n, v });
+                // a panic that reaches the user is data (C05/C06), not a harness crash
+                match std::panic::AssertUnwindSafe(query_node(&ctx, te, n - 1)).catch_unwind().await {
+                    Ok(v) => ctx.rec.push(Event::Query { t: *t, n: *n, v }),
+                    Err(_) => ctx.rec.push(Event::QueryPanic { t: *t, n: *n }),
+                }
             }
             Action::Restart => unreachable!("restart handled by caller"),
         }
